@@ -129,10 +129,15 @@ def s2(ck: Check) -> None:
     ok = isinstance(piv, ast.Name) and piv.id == cand
     ck.ob("S2", fm, f.stmt_of(test), ok, "reachability test starts from the current candidate" if ok else
           f"the reachability test is started from `{text(piv) if piv is not None else '?'}`, not from the current candidate", key="pivot")
+    clo0 = f.stmt_of(test).targets[0].id if isinstance(f.stmt_of(test), ast.Assign) and isinstance(f.stmt_of(test).targets[0], ast.Name) else None
+    algebra = _avoid_algebra(fm, loop, test, cand, clo0)
+    by_algebra = algebra == []
     # (i) initial value
     init = [d for d in fm.cfg.reaching_defs(A, hdr) if d.id not in fm.cfg.loop_nodes[loop]]
     probs = []
-    if len(init) != 1 or not (isinstance(init[0].ast, ast.Assign) and isinstance(init[0].ast.value, ast.Call) and callee_name(init[0].ast.value) == "union"):
+    if by_algebra:
+        pass        # the three parts are shown for the set as it is at the call (below)
+    elif len(init) != 1 or not (isinstance(init[0].ast, ast.Assign) and isinstance(init[0].ast.value, ast.Call) and callee_name(init[0].ast.value) == "union"):
         probs.append("initial avoid set is not a union of two sets")
     else:
         u = init[0].ast.value
@@ -144,7 +149,8 @@ def s2(ck: Check) -> None:
             probs.append(f"initial avoid set is built from {sorted(k or 'unknown' for k in kinds)}; it must contain every candidate "
                          f"(so that a candidate reaching another candidate is discarded) and every child motif")
     ck.ob("S2", fm, init[0].ast if init else loop, not probs, "; ".join(probs) if probs else
-          "avoid set starts as all candidates U child motifs", key="initial avoid set")
+          ("at the call the avoid set = child motifs U untested candidates U attractors found (read as set algebra over the loop)"
+           if by_algebra else "avoid set starts as all candidates U child motifs"), key="initial avoid set")
     # (ii) current candidate subtracted on every path to the test
     from .c13 import _within, _tbranch
     subs = []
@@ -157,7 +163,7 @@ def s2(ck: Check) -> None:
             if isinstance(v, ast.Call) and callee_name(v) == "mk_subspace" and text(v.args[0]) == cand:
                 subs.append(n)
     tb = _tbranch(fm, loop)
-    ok = bool(subs) and tn.id not in _within(fm, loop, tb, {s.id for s in subs})
+    ok = by_algebra or (bool(subs) and tn.id not in _within(fm, loop, tb, {s.id for s in subs}))
     ck.ob("S2", fm, f.stmt_of(test), ok, "current candidate removed from the avoid set before its test" if ok else
           "a path reaches the reachability test without removing the current candidate from the avoid set: the candidate "
           "'reaches itself' and every candidate is discarded (attractors lost)", key="subtract current")
@@ -174,10 +180,12 @@ def s2(ck: Check) -> None:
         pc = fm.pc(a)
         if clo and not logic.implies(pc, logic.Not(logic.B("none:" + clo))):
             probs.append(f"line {a.lineno}: a result is recorded although the candidate may have been refuted (closure is None)")
+        if by_algebra:
+            continue
         if not unions or hdr.id in _within(fm, loop, a, {u.id for u in unions}) and not any(u.id in fm.cfg.can_reach_avoiding(a, []) for u in unions):
             probs.append(f"line {a.lineno}: the attractor found is not added to the avoid set: a later candidate inside the same "
                          f"attractor is accepted as well (two seeds for one attractor)")
-    if apps and unions:
+    if apps and unions and not by_algebra:
         # every accept path passes the union
         first = min(apps, key=lambda x: x.lineno)
         accept_start = next((b for b in fm.cfg.nodes if b.kind == "branch" and b.test is not None and clo and clo in text(b.test)
@@ -207,6 +215,203 @@ def s2(ck: Check) -> None:
             if clo and not logic.implies(pc, logic.B("none:" + clo)):
                 probs.append(f"line {n.lineno}: a candidate is skipped although it was not refuted")
     ck.ob("S2", fm, loop, not probs, "; ".join(probs) if probs else "every candidate is examined unless refuted", key="loop exits")
+
+
+# ---- the avoid set, read as set algebra -------------------------------------------------------------------------------
+# Whatever the bookkeeping (one set that is edited, or parts that are recombined for every candidate), the set handed to
+# the reachability test must, at the moment of the call, include (a) every child motif, (b) every candidate that has not
+# had its turn yet but not the current one, (c) every attractor found so far. Each set-valued local is described by
+#   ch   : includes all child motifs
+#   cand : GE = includes the current and all later candidates, GT = all later ones but not the current, NONE
+#   fd   : ALL = includes every attractor found so far, OLD = all but the one found in this iteration, NO
+# and the loop body is interpreted over these descriptions until the description at the loop head is stable.
+_NONE, _GT, _GE = 0, 1, 2
+_NO, _OLD, _ALL = 0, 1, 2
+_BOTTOM = (False, _NONE, _NO)
+
+
+def _avoid_algebra(fm: FuncModel, loop: ast.For, test: ast.Call, cand: str, clo: str | None) -> list[str] | None:
+    """[] when the avoid argument of the reachability test provably has the three parts; a list of what is missing
+    otherwise; None when the loop body has a shape this reading does not cover."""
+    f = fm.f
+    av = test.args[-1] if test.args else None
+    if av is None or clo is None:
+        return None
+    hdr = fm.cfg.loop_header[loop]
+    found_at_call: list[tuple] = []
+
+    def const_of(e: ast.expr, at, in_loop: bool):
+        k = _set_origin(fm, e, at, loop)
+        if k == "ALLCANDIDATES":
+            return (False, _GE, _NO if in_loop else _ALL)
+        if k == "CHILDREN":
+            return (True, _NONE, _NO if in_loop else _ALL)
+        return None
+
+    def ev(e: ast.expr, st: dict, at, in_loop: bool):
+        if isinstance(e, ast.Name):
+            if e.id == clo:
+                return "NEW"
+            if e.id in st:
+                return st[e.id]
+            c = const_of(e, at, in_loop)
+            return c if c is not None else _BOTTOM
+        if isinstance(e, ast.Call) and isinstance(e.func, ast.Attribute):
+            nm = e.func.attr
+            if nm == "union" and len(e.args) == 1:
+                a, b = ev(e.func.value, st, at, in_loop), ev(e.args[0], st, at, in_loop)
+                if a == "NEW" and b == "NEW":
+                    return _BOTTOM
+                if a == "NEW" or b == "NEW":
+                    x = b if a == "NEW" else a
+                    return (x[0], x[1], _ALL if x[2] >= _OLD else _NO)
+                return (a[0] or b[0], max(a[1], b[1]), max(a[2], b[2]))
+            if nm == "minus" and len(e.args) == 1:
+                a = ev(e.func.value, st, at, in_loop)
+                if a == "NEW":
+                    return _BOTTOM
+                s_ = e.args[0]
+                sd_ = fm.single_def(s_.id, at) if isinstance(s_, ast.Name) else None
+                v_ = sd_[1] if sd_ else s_
+                if isinstance(v_, ast.Call) and callee_name(v_) == "mk_subspace" and v_.args and text(v_.args[0]) == cand:
+                    # the current candidate leaves; child motifs and attractors found earlier do not contain it as a rule,
+                    # and where they do the test refutes the candidate either way
+                    return (a[0], _GT if a[1] >= _GT else _NONE, a[2])
+                return _BOTTOM
+            if nm == "mk_empty_colored_vertices":
+                return (False, _NONE, _NO if in_loop else _ALL)
+            if nm == "copy" and not e.args:
+                return ev(e.func.value, st, at, in_loop)
+        c = const_of(e, at, in_loop)
+        return c if c is not None else _BOTTOM
+
+    def meet(a, b):
+        keys = set(a) & set(b)
+        return {k: (a[k][0] and b[k][0], min(a[k][1], b[k][1]), min(a[k][2], b[k][2])) for k in keys}
+
+    class Unsupported(Exception):
+        pass
+
+    def closure_test(t: ast.expr):
+        """(True: the branch taken when a closure was found is the body) / False: the orelse / None: not such a test"""
+        neg = False
+        while isinstance(t, ast.UnaryOp) and isinstance(t.op, ast.Not):
+            t, neg = t.operand, not neg
+        if isinstance(t, ast.Compare) and len(t.ops) == 1 and isinstance(t.left, ast.Name) and t.left.id == clo \
+                and isinstance(t.comparators[0], ast.Constant) and t.comparators[0].value is None:
+            is_none_branch = isinstance(t.ops[0], ast.Is)
+            return (not is_none_branch) != neg
+        return None
+
+    def event(st: dict) -> dict:
+        return {k: (v[0], v[1], _OLD if v[2] == _ALL else _NO) for k, v in st.items()}
+
+    def run(stmts: list[ast.stmt], st: dict, in_loop: bool, pending: list) -> list[tuple[str, dict]]:
+        """pending[0] is True between the call and the test that tells whether a closure was found"""
+        cur = dict(st)
+        for k, s_ in enumerate(stmts):
+            rest = stmts[k + 1:]
+            if isinstance(s_, (ast.Assign, ast.AnnAssign)) and getattr(s_, "value", None) is not None:
+                tg = s_.targets[0] if isinstance(s_, ast.Assign) else s_.target
+                if any(c_ is test for c_ in ast.walk(s_.value)):
+                    found_at_call.append(ev(av, cur, fm.cfgn(s_), in_loop))
+                    pending[0] = True
+                    continue
+                if isinstance(tg, ast.Name):
+                    v = ev(s_.value, cur, fm.cfgn(s_), in_loop)
+                    if v == "NEW":
+                        v = _BOTTOM
+                    if v != _BOTTOM or tg.id in cur:
+                        cur[tg.id] = v
+                continue
+            if isinstance(s_, ast.If):
+                ct = closure_test(s_.test)
+                b_st, o_st = dict(cur), dict(cur)
+                if ct is not None and pending[0]:
+                    if ct:
+                        b_st = event(b_st)
+                    else:
+                        o_st = event(o_st)
+                    pb, po = [False], [False]
+                else:
+                    pb, po = [pending[0]], [pending[0]]
+                outs = run(s_.body, b_st, in_loop, pb) + run(s_.orelse, o_st, in_loop, po)
+                falls = [x for kd, x in outs if kd == "fall"]
+                done = [(kd, x) for kd, x in outs if kd != "fall"]
+                if not falls:
+                    return done
+                nxt = falls[0]
+                for x in falls[1:]:
+                    nxt = meet(nxt, x)
+                pending[0] = (pb[0] or po[0]) and ct is None
+                return done + run(rest, nxt, in_loop, pending)
+            if isinstance(s_, (ast.For, ast.While)):
+                outs = run(s_.body, dict(cur), in_loop, [pending[0]])
+                for kd, x in outs:
+                    if kd in ("fall", "continue", "break"):
+                        cur = meet(cur, x)
+                    else:
+                        return [(kd, x)] + run(rest, cur, in_loop, pending)
+                continue
+            if isinstance(s_, ast.Continue):
+                return [("continue", cur)]
+            if isinstance(s_, ast.Break):
+                return [("break", cur)]
+            if isinstance(s_, (ast.Return, ast.Raise)):
+                return [("return", cur)]
+            if isinstance(s_, (ast.Try, ast.With, ast.Match if hasattr(ast, "Match") else ast.Try)):
+                raise Unsupported()
+            if isinstance(s_, ast.Expr) and any(c_ is test for c_ in ast.walk(s_)):
+                raise Unsupported()
+        return [("fall", cur)]
+
+    try:
+        # before the loop: the plain assignments of the function body, in order
+        entry: dict = {}
+        for s_ in f.node.body:
+            if s_ is loop:
+                break
+            if isinstance(s_, (ast.Assign, ast.AnnAssign)) and getattr(s_, "value", None) is not None:
+                tg = s_.targets[0] if isinstance(s_, ast.Assign) else s_.target
+                if isinstance(tg, ast.Name):
+                    v = ev(s_.value, entry, fm.cfgn(s_), False)
+                    if v != "NEW" and v != _BOTTOM:
+                        entry[tg.id] = v
+        if loop not in f.node.body:
+            return None
+        head = dict(entry)
+        for _ in range(6):
+            found_at_call.clear()
+            outs = run(loop.body, dict(head), True, [False])
+            nxt = dict(entry)
+            for kd, x in outs:
+                if kd in ("fall", "continue"):
+                    # the next candidate's turn: "later than the current one" now includes the new current one; an
+                    # attractor that was found and not taken in stays missing
+                    y = {k: (v[0], _GE if v[1] == _GT else v[1], _ALL if v[2] == _ALL else _NO) for k, v in x.items()}
+                    nxt = meet(nxt, y)
+            if nxt == head:
+                break
+            head = nxt
+        else:
+            return None
+    except (Unsupported, AnalysisError, RecursionError):
+        return None
+    if not found_at_call:
+        return None
+    probs = []
+    for v in found_at_call:
+        if v == "NEW" or v is None:
+            return None
+        if not v[0]:
+            probs.append("the child motifs are not (known to be) part of the avoid set")
+        if v[1] == _GE:
+            probs.append("the current candidate is still in the avoid set when its own test starts")
+        elif v[1] == _NONE:
+            probs.append("the candidates that have not been tested yet are not part of the avoid set")
+        if v[2] != _ALL:
+            probs.append("an attractor found for an earlier candidate is not part of the avoid set")
+    return sorted(set(probs))
 
 
 def _set_origin(fm: FuncModel, e: ast.AST, at, loop) -> str | None:
